@@ -28,6 +28,7 @@ partial def parseGoVal (j : Json) : GoVal :=
   | "nilslice" => .slice "string" true []
   | "nilmap" => .map true []
   | "nilptr" => .nilPtr "int"
+  | "ptr" => let x := parseGoVal v; .ptr x.typeTag x
   | "[]interface" => .slice "interface" false ((match v with | .arr a => a.toList | _ => []).map parseGoVal)
   | "[]string" => .slice "string" false ((match v with | .arr a => a.toList | _ => []).map parseGoVal)
   | "[]int64" => .slice "int64" false ((match v with | .arr a => a.toList | _ => []).map parseGoVal)
